@@ -47,6 +47,10 @@ type PropConfig struct {
 	} `json:"validations,omitempty"`
 	QuickTimeout    int      `json:"quick_timeout,omitempty"`
 	ThoroughTimeout int      `json:"thorough_timeout,omitempty"`
+	// functions and lemmas that are verified in the thorough tier only (neighbouring code the
+	// property also depends on, under contract for another property's quick check)
+	ThoroughFunctions []string `json:"thorough_functions,omitempty"`
+	ThoroughLemmas    []string `json:"thorough_lemmas,omitempty"`
 	NotCovered      []string `json:"not_covered,omitempty"`
 }
 
@@ -112,6 +116,8 @@ func cmdCheck(args []string) int {
 		if cfg.ThoroughTimeout > 0 {
 			timeout = cfg.ThoroughTimeout
 		}
+		cfg.Functions = append(cfg.Functions, cfg.ThoroughFunctions...)
+		cfg.Lemmas = append(cfg.Lemmas, cfg.ThoroughLemmas...)
 	}
 	scratch := envOr("VERIF_SCRATCH", fmt.Sprintf("/var/tmp/verif-%d", os.Getpid()))
 	os.MkdirAll(scratch, 0o755)
